@@ -67,8 +67,7 @@ ASSUMPTIONS = {
           "every cost-bearing scheme gets an explicit cheap default_rounds (handler defaults are 10^5-10^6 rounds)"],
     "C04": ["the exact vary_rounds range is not modelled: varied costs must lie inside the configured window and the hard limits"],
     "C08": ["the field extractor is exact about values and strict about anchors and alphabets; the spellings it accepts are hex case, padding "
-            "bits, '=' padding at the end, blanks / '+' / '_' / zero padding in its own decimal patterns, bcrypt 2a/2b/2y; what else int() "
-            "reads in a decimal field is known finding F39"],
+            "bits, '=' padding at the end, zero padding where a format allows it, bcrypt 2a/2b/2y; decimal fields are ASCII digits (F39)"],
     "C10": ["whether an inconsistent but accepted change should have been refused is not judged: if it raises the before/after snapshot must "
             "be equal, if it does not the result must equal a rebuild from the merged dictionary"],
     "C18": ["strings the context cannot attribute to any scheme are outside the model (documented UnknownHashError)"],
